@@ -122,7 +122,7 @@ theorem Inv.step (r : Run) (op : Op) (hop : op.Small) (h : Inv r) : Inv (r.step 
       simp only [this]
       constructor <;> simp_all
     | none =>
-      by_cases hbig : 1 + d.length > r.peerMax
+      by_cases hbig : 1 + varintSize d.length + d.length > r.peerMax
       · have : send r.peerMax r.snd d = (r.snd, .refused) := by unfold send; simp [hc, hbig]
         simp only [this]
         constructor <;> simp_all
@@ -397,5 +397,86 @@ theorem sublist_flatMap {α β : Type} (f : α → List β) {a b : List α} (h :
   | slnil => simp
   | cons x _ ih => simp only [List.flatMap_cons]; exact ih.trans (List.sublist_append_right _ _)
   | cons_cons x _ ih => simp only [List.flatMap_cons]; exact List.Sublist.append (List.Sublist.refl _) ih
+
+/-! ### admission: what was accepted passed the size test of `send_bytes` (ghost `accepted`) -/
+
+theorem send_queued_admitted (peerMax : Nat) (s : Sender) (d : Bytes) (h : (send peerMax s d).2 = .queued) :
+    hdrSize true d.length + d.length ≤ peerMax := by
+  unfold send at h
+  cases hc : s.closed with
+  | some e => simp [hc] at h
+  | none =>
+    simp only [hc] at h
+    by_cases hb : 1 + varintSize d.length + d.length > peerMax
+    · simp [hb] at h
+    · simp only [hdrSize, if_true]; omega
+
+theorem step_peerMax (r : Run) (op : Op) : (r.step op).peerMax = r.peerMax := by
+  cases op with
+  | send d => simp [Run.step, Run.stepObs]
+  | load remaining calls => simp only [Run.step, Run.stepObs]; split <;> rfl
+  | deliver k => simp only [Run.step, Run.stepObs]; split <;> rfl
+  | drop k => simp only [Run.step, Run.stepObs]; split <;> rfl
+  | read => simp [Run.step, Run.stepObs]
+  | errSnd e => simp [Run.step, Run.stepObs]
+  | errRcv e => simp [Run.step, Run.stepObs]
+
+theorem step_accepted_admitted (r : Run) (op : Op)
+    (h : ∀ d ∈ r.accepted, hdrSize true d.length + d.length ≤ r.peerMax) :
+    ∀ d ∈ (r.step op).accepted, hdrSize true d.length + d.length ≤ r.peerMax := by
+  cases op with
+  | send d =>
+    simp only [Run.step, Run.stepObs]
+    by_cases hq : (send r.peerMax r.snd d).2 = .queued
+    · simp only [hq, if_true]
+      intro x hx
+      simp only [List.mem_append, List.mem_singleton] at hx
+      cases hx with
+      | inl hx => exact h x hx
+      | inr hx => subst hx; exact send_queued_admitted _ _ _ hq
+    · simp only [hq, if_false]; exact h
+  | load remaining calls => simp only [Run.step, Run.stepObs]; split <;> exact h
+  | deliver k => simp only [Run.step, Run.stepObs]; split <;> exact h
+  | drop k => simp only [Run.step, Run.stepObs]; split <;> exact h
+  | read => simpa [Run.step, Run.stepObs] using h
+  | errSnd e => simpa [Run.step, Run.stepObs] using h
+  | errRcv e => simpa [Run.step, Run.stepObs] using h
+
+theorem foldl_accepted_admitted (ops : List Op) : ∀ (r : Run),
+    (∀ d ∈ r.accepted, hdrSize true d.length + d.length ≤ r.peerMax) →
+    (ops.foldl Run.step r).peerMax = r.peerMax ∧
+    ∀ d ∈ (ops.foldl Run.step r).accepted, hdrSize true d.length + d.length ≤ r.peerMax := by
+  induction ops with
+  | nil => intro r h; exact ⟨rfl, h⟩
+  | cons op ops ih =>
+    intro r h
+    have h' := step_accepted_admitted r op h
+    rw [← step_peerMax r op] at h'
+    have := ih (r.step op) h'
+    rw [step_peerMax] at this
+    exact this
+
+theorem run_accepted_admitted (pm lm : Nat) (ops : List Op) :
+    ∀ d ∈ (run pm lm ops).accepted, hdrSize true d.length + d.length ≤ pm :=
+  (foldl_accepted_admitted ops (Run.config pm lm) (by simp [Run.config])).2
+
+/-- each assembly pass over a source list with the datagram queue writes (at least) the head -/
+theorem assemble_head (sources : List Source) (hsrc : Source.datagrams ∈ sources)
+    (remaining : Nat) (s s' : Sender) (pad : Nat) (wl : Bool) (d : Bytes)
+    (h : tryLoad remaining s = (s', .wrote pad wl d)) :
+    ∃ p, (assembleDatagrams sources remaining s).2 = ⟨pad, wl, d⟩ :: p := by
+  have hcont : sources.contains Source.datagrams = true := by simpa using hsrc
+  simp only [assembleDatagrams, hcont, if_true]
+  rw [loadN_wrote remaining remaining s _ pad wl d h]
+  exact ⟨_, rfl⟩
+
+/-- `n` consecutive 1-RTT assembly passes, each with `remaining` bytes of room left for datagrams;
+returns the sender afterwards and the datagram part of the `n` packets -/
+def passes : Nat → Nat → Sender → Sender × List Pkt
+  | 0, _, s => (s, [])
+  | n + 1, remaining, s =>
+    let (s', p) := assembleDatagrams oneRttSources remaining s
+    let (s'', ps) := passes n remaining s'
+    (s'', p :: ps)
 
 end GmQuic.Datagram
